@@ -124,8 +124,11 @@ pub fn check(case: &Case, idx: u64, acc: &mut Acc) {
     }
     // scale invariance: knots and abscissa multiplied by a power of two (exact in binary floating point) give
     // bit-identical values, and derivatives scaled by the exact inverse power
-    for e in [-80i32, -60, -54, -53, -30, 40] {
-        let f = 2.0_f64.powi(e);
+    for e in [-1060i32, -1054, -1022, -80, -60, -54, -53, -30, 40, 900] {
+        let f = 2.0_f64.powi(e / 2) * 2.0_f64.powi(e - e / 2); // (powi alone overflows its intermediate beyond 2^-1023)
+        if !(f > 0.0 && f.is_finite()) {
+            machinery_fail("scale factor left the double range");
+        }
         let ts: Vec<f64> = t.iter().map(|v| v * f).collect();
         for x in pts.iter() {
             let (xf, xs) = (x.f(), x.f() * f);
@@ -137,8 +140,10 @@ pub fn check(case: &Case, idx: u64, acc: &mut Acc) {
                     return;
                 }
                 if k >= 2 {
-                    let (d, ds) = (bspldnev_single_f64(&xf, i, &k, &t, 1, None), bspldnev_single_f64(&xs, i, &k, &ts, 1, None) * f);
-                    if d != ds {
+                    let raw = bspldnev_single_f64(&xs, i, &k, &ts, 1, None);
+                    let (d, ds) = (bspldnev_single_f64(&xf, i, &k, &t, 1, None), raw * f);
+                    // (at the ends of the double range the rescaled derivative itself leaves the range: not judged)
+                    if raw.is_finite() && (raw == 0.0 || raw.abs() > 1e-290) && d != ds {
                         acc.violate("scale-invariance/derivative", idx, cj(), json!({"x": xf, "i": i, "scale": format!("2^{}", e), "want": d}), json!(ds));
                         return;
                     }
@@ -167,6 +172,36 @@ pub fn check(case: &Case, idx: u64, acc: &mut Acc) {
                     if bad {
                         acc.violate("vector-route/differs-from-single-point", idx, cj(), json!({"i": i, "m": m, "point_order": (["ascending", "descending", "scrambled with repeats"])[oi]}), json!(v));
                         break;
+                    }
+                }
+            }
+        }
+    }
+    // far translation: knots x 4 + 2^53 (all even, hence exactly representable where doubles are 2 apart); only the
+    // evaluation points that stay representable are used. Values are unchanged, first derivatives are a quarter.
+    {
+        let big = 9007199254740992.0_f64; // 2^53
+        let ts: Vec<f64> = t.iter().map(|v| v * 4.0 + big).collect();
+        if ts.iter().zip(t.iter()).all(|(a, b)| a - big == b * 4.0) {
+            for x in pts.iter() {
+                let xf = x.f();
+                let xs = xf * 4.0 + big;
+                if xs - big != xf * 4.0 {
+                    continue;
+                }
+                for i in 0..n {
+                    acc.evals_add(2);
+                    let (v, vs) = (bsplev_single_f64(&xf, i, &k, &t, None), bsplev_single_f64(&xs, i, &k, &ts, None));
+                    if v != vs {
+                        acc.violate("far-translation/value", idx, cj(), json!({"x": xf, "i": i, "want": v}), json!(vs));
+                        return;
+                    }
+                    for m in 1..k.min(4) {
+                        let (d, ds) = (bspldnev_single_f64(&xf, i, &k, &t, m, None), bspldnev_single_f64(&xs, i, &k, &ts, m, None) * 4.0_f64.powi(m as i32));
+                        if d != ds {
+                            acc.violate("far-translation/derivative", idx, cj(), json!({"x": xf, "i": i, "m": m, "want": d}), json!(ds));
+                            return;
+                        }
                     }
                 }
             }
@@ -252,7 +287,7 @@ pub fn run(ctx: &Ctx, replay_file: Option<String>) -> ! {
          i128 rational coefficients, symbolic derivatives, right limit, left limit at the right end point): value >= 0 \
          with no tolerance, exactly 0 outside [t_i, t_{i+k}], sum = 1 to 1e-12, m-th derivative equal to the model's, \
          exactly 0 for m >= k; the dual-abscissa variants (bsplev/bspldnev_single_dual, _dual2) return the same \
-         value with the next one / two derivatives as first / second order sensitivities. Scale invariance: every knot vector and abscissa multiplied by 2^e, e in {-80,-60,-54,-53,-30,40}, gives bit-identical values and exactly rescaled first derivatives. Translation: every knot vector and abscissa shifted by -4, -3, -1.5, -t0 and 1024 (exact) gives identical values and first derivatives, with both signs of zero tried for an abscissa and for a stored knot that lands on zero. Vector route: PPSpline::bspldnev on ascending, descending and scrambled-with-repeats point vectors equals the single-point route. Long knot vectors: orders 1..5 with 7, 8, 15, 16, 17, 31, 32, 33, 64 interior knots at half-integer positions (middle knot doubled). The model itself is checked to be a partition of unity at every point. Non-trivial: \
+         value with the next one / two derivatives as first / second order sensitivities. Scale invariance: every knot vector and abscissa multiplied by 2^e, e in {-1060,-1054,-1022,-80,-60,-54,-53,-30,40,900} (subnormal knots included), gives bit-identical values and exactly rescaled first derivatives. Translation: every knot vector and abscissa shifted by -4, -3, -1.5, -t0 and 1024 (exact) gives identical values and first derivatives, with both signs of zero tried for an abscissa and for a stored knot that lands on zero. Far translation: knots x 4 + 2^53 (spans of one or two ulps of the knot values) at the representable points, values and derivatives up to order 3. Vector route: PPSpline::bspldnev on ascending, descending and scrambled-with-repeats point vectors equals the single-point route. Long knot vectors: orders 1..5 with 7, 8, 15, 16, 17, 31, 32, 33, 64 interior knots at half-integer positions (middle knot doubled). The model itself is checked to be a partition of unity at every point. Non-trivial: \
          evaluations exactly at a knot where the function is non-zero.",
         json!({"max_order": ctx.tier.pick(6, 7), "knot_vectors": cs.len()}),
     )
